@@ -49,15 +49,28 @@ func crashCases(w *World, di int, r *Rng, thorough bool) []crashCase {
 			continue
 		}
 		n := e.N
-		if thorough && small {
+		// The commit point (the last write of a Flush: the root record) and
+		// any write that lands on bytes already in the file (a stale tail
+		// being overwritten after a re-open; never a live record on the
+		// unchanged tree) are cut at every byte: there a torn write can
+		// leave a mixture of old and new bytes.
+		lastOfFlush := e.Kind2 == "flush" && (wcount+1 == len(changes) || changes[wcount+1].Op != e.Op || changes[wcount+1].Sub != e.Sub)
+		overwrites := e.Off < e.Size0
+		if (thorough && small) || ((lastOfFlush || overwrites) && n <= 400) {
+			if lastOfFlush {
+				w.probe("crash-root-record-write-cut-at-every-byte")
+			}
+			if overwrites {
+				w.probe("crash-overwriting-write-cut-at-every-byte")
+			}
 			for t := 1; t < n; t++ {
 				add(t)
 			}
 			continue
 		}
 		seen := map[int]bool{}
-		cands := []int{1, 2, 3, n - 1, n - 2, n - 3, n / 2, 12, 13, 20, 23, 24, n - 12, n - 24}
-		k := 2
+		cands := []int{1, n - 1, n / 2, 1 + r.Intn(n-1), 1 + r.Intn(n-1), 2, n - 2, 3, n - 3, 12, 13, 20, 23, 24, n - 12, n - 24}
+		k := 0
 		if thorough {
 			k = 12
 		}
@@ -228,14 +241,17 @@ func RunCrash(plan *Plan, thorough bool) *RunResult {
 				spec := c.Spec
 				prefix := append([]Op{}, w.Trace[:cut]...)
 				prefix = append(prefix, Op{Kind: "crash", D: di, Crash: &spec})
-				cr := RunSeqContinue(&Plan{Prop: plan.Prop, Profile: plan.Profile, Seed: Mix(plan.Seed, uint64(k), 77), Ops: prefix}, p, rng.Range(6, 25), k == 0)
+				cseed := Mix(plan.Seed, uint64(k), 77)
+				cr := RunSeqContinue(&Plan{Prop: plan.Prop, Profile: plan.Profile, Seed: cseed, Ops: prefix}, p, rng.Range(6, 25), k == 0)
 				r.Evals++
 				w.probe("crash-continued")
 				for kk, vv := range cr.Stats.Probes {
 					w.Stats.Probes[kk] += vv
 				}
 				if cr.Viol != nil {
-					cr.Plan = &Plan{Prop: plan.Prop, Profile: plan.Profile, Seed: plan.Seed, Ops: cr.World.Trace}
+					// the replay must run under the seed the continuation ran
+					// under (library-chosen priorities of Set come from it)
+					cr.Plan = &Plan{Prop: plan.Prop, Profile: plan.Profile, Seed: cseed, Ops: cr.World.Trace}
 					cr.Evals = r.Evals
 					cr.Viol.Msg = "after crash recovery: " + cr.Viol.Msg
 					return cr
